@@ -20,7 +20,7 @@ import (
 // chains finalize concurrently, observed by a cursor-following reader.
 func TestVerif_C35(t *testing.T) {
 	r := verifkit.Start(t, "C35", "exploration")
-	r.SetRule("kernel part: one goroutine per chain (as the node's per-chain loops) delivers certified snapshots through cosiHook concurrently, with a random delay of 0..2 ms injected " +
+	r.SetRule("kernel part: one goroutine per chain (as the node's per-chain loops) delivers certified snapshots (one or two new transactions, or a transaction another chain finalized already, alone or next to a new one) through cosiHook concurrently, with a random delay of 0..2 ms injected " +
 		"at the storage boundary before each WriteSnapshot; a concurrent reader follows the topology like a syncing peer (list from cursor, advance the cursor past the last item). " +
 		"Oracle: positions passed to the store are unique and each write starts only after every smaller position completed; the cursor-following reader has seen exactly the " +
 		"stored snapshots (none skipped), each listing strictly increasing and starting at or after its cursor. non-trivial = distinct snapshots finalized concurrently")
@@ -111,6 +111,12 @@ func TestVerif_C35(t *testing.T) {
 	}
 	var finalized atomic.Int64
 	var wg sync.WaitGroup
+	// transactions finalized so far and the chains that already included them: other chains repeat them
+	// (two leaders proposing the same transaction is ordinary), alone or next to new ones
+	var pmu sync.Mutex
+	var donePool []*common.VersionedTransaction
+	onChains := map[crypto.Hash]map[crypto.Hash]bool{}
+	var repeats, multis atomic.Int64
 	for ci, id := range f.net.NodeIds {
 		wg.Add(1)
 		go func(ci int, id crypto.Hash) {
@@ -121,10 +127,39 @@ func TestVerif_C35(t *testing.T) {
 			ts := f.net.Epoch + uint64(time.Hour) + uint64(ci)*1000
 			for k := 0; k < perChain; k++ {
 				dep, _ := w.Deposit(verifgen.Assets()[1+lr.Intn(3)], big.NewInt(int64(1+lr.Intn(1e6))))
+				txs := []*common.VersionedTransaction{dep}
+				switch lr.Intn(4) {
+				case 0: // two new transactions
+					dep2, _ := w.Deposit(verifgen.Assets()[1+lr.Intn(3)], big.NewInt(int64(1+lr.Intn(1e6))))
+					txs = append(txs, dep2)
+					multis.Add(1)
+				case 1, 2: // a transaction another chain finalized already, alone or with the new one
+					pmu.Lock()
+					var old *common.VersionedTransaction
+					for tries := 0; tries < 6 && old == nil && len(donePool) > 0; tries++ {
+						c := donePool[lr.Intn(len(donePool))]
+						if !onChains[c.PayloadHash()][id] {
+							old = c
+							onChains[c.PayloadHash()][id] = true
+						}
+					}
+					pmu.Unlock()
+					if old != nil {
+						if lr.Intn(2) == 0 {
+							txs = []*common.VersionedTransaction{old}
+						} else {
+							txs = append(txs, old)
+						}
+						repeats.Add(1)
+					}
+				}
 				ts += uint64(4*time.Second) + uint64(lr.Intn(1000)) // every snapshot opens a new round
 				chain := f.chain(id)
 				cache, _ := chain.StateCopy()
-				s := &common.Snapshot{Version: common.SnapshotVersionCommonEncoding, NodeId: id, Timestamp: ts, Transactions: []crypto.Hash{dep.PayloadHash()}}
+				s := &common.Snapshot{Version: common.SnapshotVersionCommonEncoding, NodeId: id, Timestamp: ts}
+				for _, tx := range txs {
+					s.Transactions = append(s.Transactions, tx.PayloadHash())
+				}
 				if len(cache.Snapshots) == 0 {
 					s.RoundNumber, s.References = cache.Number, cache.References.Copy()
 				} else {
@@ -137,9 +172,9 @@ func TestVerif_C35(t *testing.T) {
 				if _, err := verifSignWith(f.net, s, cids, publics, vC35Sorted(pos)); err != nil {
 					continue
 				}
-				d := f.deliver(s, []*common.VersionedTransaction{dep})
+				d := f.deliver(s, txs)
 				if !d.Finalized && !d.Panicked && d.Err == nil {
-					d = f.deliver(s, []*common.VersionedTransaction{dep})
+					d = f.deliver(s, txs)
 				}
 				if d.Panicked {
 					r.Violation("C35|kernel|panic-during-concurrent-finalization|"+verifkit.PanicSite(d.Stack), fmt.Sprintf("finalization panicked: %.200v", d.PanicVal), nil)
@@ -147,6 +182,16 @@ func TestVerif_C35(t *testing.T) {
 				}
 				if d.Finalized {
 					finalized.Add(1)
+					pmu.Lock()
+					for _, tx := range txs {
+						h := tx.PayloadHash()
+						if onChains[h] == nil {
+							onChains[h] = map[crypto.Hash]bool{}
+							donePool = append(donePool, tx)
+						}
+						onChains[h][id] = true
+					}
+					pmu.Unlock()
 				}
 			}
 		}(ci, id)
@@ -159,6 +204,8 @@ func TestVerif_C35(t *testing.T) {
 		r.Nontrivial(fmt.Sprint("snap", i))
 	}
 	r.Note("snapshots_finalized_concurrently", finalized.Load())
+	r.Note("snapshots_repeating_a_transaction_of_another_chain", repeats.Load())
+	r.Note("snapshots_with_two_new_transactions", multis.Load())
 	r.Note("reader_positions_seen", len(seen))
 	if duplicates > 0 {
 		r.Violation("C35|kernel|position-assigned-twice", fmt.Sprintf("%d topology positions were passed to the store twice", duplicates), nil)
